@@ -192,6 +192,31 @@ theorem node_close_group_spec (ps : List Peer) (selfId : Nat) :
 
 /-! ## Non-vacuity -/
 
+/-! ## The same facts for the function the code computes: `H` := SHA-256 as defined in `Base/Sha256` (FIPS 180-4),
+no hypothesis left except collision-freedom in the zero clause -/
+
+/-- a real distance is a 256-bit number … -/
+theorem sha_dist_lt (a b : Addr) : distSha a b < 2 ^ 256 :=
+  dist_lt _ SafeNet.Sha256.hashNat_lt a b
+
+/-- … so the decimal detour of `convert_distance_to_u256` returns exactly the XOR of the two SHA-256 digests and
+never falls back to zero, for every pair of addresses -/
+theorem sha_convert_exact (a b : Addr) :
+    convert (distSha a b) = SafeNet.Sha256.hashNat (asBytes a) ^^^ SafeNet.Sha256.hashNat (asBytes b) :=
+  convert_is_identity _ (sha_dist_lt a b)
+
+theorem sha_dist_symm (a b : Addr) : convert (distSha a b) = convert (distSha b a) := by
+  unfold distSha; rw [dist_symm]
+
+theorem sha_dist_zero_iff (hinj : ∀ x y, SafeNet.Sha256.hashNat x = SafeNet.Sha256.hashNat y → x = y) (a b : Addr) :
+    convert (distSha a b) = 0 ↔ asBytes a = asBytes b := by
+  rw [convert_is_identity _ (sha_dist_lt a b)]
+  exact dist_eq_zero_iff _ hinj a b
+
+theorem sha_dist_form_independent (a b : Addr) :
+    convert (distSha (fromRecordKey (toRecordKey a)) b) = convert (distSha a b) := by
+  unfold distSha; rw [(dist_form_independent _ a b).1]
+
 example : convert 0 = 0 := convert_is_identity 0 (by decide)
 example : convert (2 ^ 256 - 1) = 2 ^ 256 - 1 := convert_is_identity _ (by decide)
 example : sortPeersByKey [(1, 9), (2, 3), (3, 7), (4, 1), (5, 5)] 2 ≠ none := by
@@ -207,6 +232,11 @@ end SafeNet.Props.C11
 #print axioms SafeNet.Props.C11.dist_form_independent
 #print axioms SafeNet.Props.C11.dist_lt
 #print axioms SafeNet.Props.C11.convert_is_identity
+#print axioms SafeNet.Props.C11.sha_dist_lt
+#print axioms SafeNet.Props.C11.sha_convert_exact
+#print axioms SafeNet.Props.C11.sha_dist_symm
+#print axioms SafeNet.Props.C11.sha_dist_zero_iff
+#print axioms SafeNet.Props.C11.sha_dist_form_independent
 #print axioms SafeNet.Props.C11.sort_sorted
 #print axioms SafeNet.Props.C11.sort_perm
 #print axioms SafeNet.Props.C11.sort_err_iff_few
